@@ -34,6 +34,7 @@ type Task struct {
 	Meta bool   `json:"meta"`
 	Ctxs []Ctx  `json:"ctxs"`
 	Mon  int    `json:"mon"`
+	Stop bool   `json:"stop"`
 }
 type TCtx struct {
 	T int    `json:"t"`
@@ -91,21 +92,66 @@ func build(c Case) (*shell_operator.ShellOperator, *queue.TaskQueue, []task.Task
 	return op, q, ts
 }
 
-func check(c Case, exported bool) (string, string) {
+// check runs one combination. withStop: the caller's stopCombineFn rejects the tasks marked `stop` in the layout, and
+// while the combination is between its two critical sections (Iterate under the read lock, Filter under the write
+// lock) another goroutine appends a task for the same hook: it must stay in the queue, unmerged, behind everything else.
+func check(c Case, exported, withStop bool) (string, string) {
 	op, q, ts := build(c)
 	var r *shell_operator.CombineResult
 	var perr interface{}
+	appended := false
+	done := make(chan struct{})
+	var stop func(task.Task) bool
+	if withStop {
+		stops := map[string]bool{}
+		for i, t := range c.Layout {
+			if t.Stop {
+				stops[fmt.Sprintf("t%d", i+1)] = true
+			}
+		}
+		stop = func(t task.Task) bool {
+			if !appended {
+				appended = true
+				started := make(chan struct{})
+				go func() {
+					nt := task.NewTask(task_metadata.HookRun)
+					nt.Id = "t99"
+					nt.WithQueueName("main")
+					hm := task_metadata.HookMetadata{HookName: c.Layout[0].Hook}
+					hm.BindingContext = append(hm.BindingContext, bctx.BindingContext{Binding: "99.1"})
+					nt.WithMetadata(hm)
+					close(started)
+					q.AddLast(nt) // blocks until Iterate has released the read lock, then goes ahead of Filter's write lock
+					close(done)
+				}()
+				<-started
+				time.Sleep(300 * time.Microsecond)
+			}
+			return stops[t.GetId()]
+		}
+	}
 	func() {
 		defer func() { perr = recover() }()
 		if exported {
-			r = op.CombineBindingContextForHook(q, ts[0], nil)
+			r = op.CombineBindingContextForHook(q, ts[0], stop)
 		} else {
-			r = op.VerifCombine(q, ts[0])
+			r = op.VerifCombineStop(q, ts[0], stop)
 		}
 	}()
+	if appended {
+		select {
+		case <-done:
+		case <-time.After(2 * time.Second):
+			return "DIV/append-never-finished", "AddLast started during the combination did not return"
+		}
+		c.Res.Rest = append(append([]int{}, c.Res.Rest...), 99)
+	}
 	which := "internal"
 	if exported {
 		which = "exported"
+	}
+	if withStop {
+		which += "/stop+append"
 	}
 	if perr != nil {
 		return "C07/panic/" + which, fmt.Sprint(perr)
@@ -201,7 +247,7 @@ func main() {
 	os.Setenv("QUEUE_ACTIONS_METRICS", "no")
 	in := flag.String("in", "", "")
 	out := flag.String("out", "", "")
-	mode := flag.String("mode", "combine", "combine | backoff")
+	mode := flag.String("mode", "combine", "combine | stop | backoff")
 	flag.Parse()
 	if *mode == "backoff" {
 		if err := backoff(*in, *out); err != nil {
@@ -229,7 +275,7 @@ func main() {
 		}
 		o := Out{Case: n, OK: true}
 		for _, exported := range []bool{false, true} {
-			if sig, d := check(c, exported); sig != "" {
+			if sig, d := check(c, exported, *mode == "stop"); sig != "" {
 				o.OK, o.Sig, o.Detail = false, sig, d
 				break
 			}
